@@ -35,7 +35,9 @@ GEN = []
 MODELS = ["OptiVerif.Model.Filter"]
 RULE = ("cases = (device LPF|BPF, order 1..8, cut-off/fs in (0.01,0.45) incl. both ends, fs = sps*R or explicit, N from padding+1 to 300 "
         "(2000 thorough) incl. powers of two and primes, ndarray(float|int)|container input, real|complex dtype, 1|2 polarisations, "
-        "with|without noise, amplitude scale 1e-3..50; a third of the cases draw the absolute cut-off from {1,2,4} GHz so that the same (BW, order) "
+        "with|without noise, amplitude regimes 1e-15..1e9 with noise level 0.1|1|1e-11 of the signal and a homogeneity factor h in "
+        "{1e-15,1e-13,1e-9,1e9}; dark records: signal identically zero on x, on y or everywhere while noise is present on every row "
+        "(a third of the BPF cases, a ninth of the LPF cases); a third of the cases draw the absolute cut-off from {1,2,4} GHz so that the same (BW, order) "
         "recurs in one process under different sampling rates) + histories (same BW and order under 3 sampling rates in sequence and back, "
         "via gv or LPF's fs=, each call sent to the model and compared with a freshly designed scipy reference) "
         "+ tone / pulse / retH / too-short records; non-trivial = filter applied to a "
@@ -99,7 +101,11 @@ def gen_cases(rng, tier):
                     n = rng.randint(e + 1, 300)
                 sps, R = rng.choice(GVS)
                 c = {"kind": dev, "order": order, "fcn": _fcn(rng), "n": n, "sps": sps, "R": R,
-                     "noise": rng.random() < 0.5, "scale": rng.choice([1e-3, 1.0, 1.0, 50.0]), "seed": rng.getrandbits(32),
+                     "noise": rng.random() < 0.5, "seed": rng.getrandbits(32),
+                     # amplitude regimes: every tolerance is relative to the data, so femto-volt and giga-volt records must behave alike
+                     "scale": rng.choice([1e-15, 1e-13, 1e-9, 1e-3, 1.0, 1.0, 50.0, 1e9]),
+                     "nscale": rng.choice([0.1, 0.1, 1.0, 1e-11]),            # noise level relative to the signal level
+                     "hom": rng.choice([1e-15, 1e-13, 1e-9, 1e9]),            # homogeneity factor: F(h x) = h F(x)
                      "a": [rng.uniform(-3, 3), rng.uniform(-3, 3)], "b": [rng.uniform(-3, 3), rng.uniform(-3, 3)]}
                 if rep % 3 == 2:
                     # the SAME absolute cut-off recurs across cases of the run under different sampling rates
@@ -111,9 +117,16 @@ def gen_cases(rng, tier):
                     if not c["form"].startswith("container"):
                         c["noise"] = False
                     c["npol"] = 1
+                    if rep % 9 == 4:
+                        # a record whose signal part is identically zero but which carries noise
+                        c["form"], c["noise"], c["dark"] = "container", True, "all"
                 else:
                     c["form"] = "container"
                     c["npol"] = rng.choice([1, 2])
+                    if rep % 3 == 1:
+                        # dark polarisation(s): signal identically zero on x, on y or everywhere, noise (ASE) on every row
+                        c["noise"] = True
+                        c["dark"] = rng.choice(["x", "y", "all"]) if c["npol"] == 2 else "all"
                 cases.append(c)
     # design-dependent clauses: tones, pulses, retH (oracle only)
     nt = 3 if quick else 12
@@ -123,7 +136,7 @@ def gen_cases(rng, tier):
             fcn = [0.0101, 0.4499, _fcn(rng)][k] if k < 3 else _fcn(rng)
             cases.append({"kind": "tone", "dev": rng.choice(["lpf", "bpf"]) if k else ("lpf" if order % 2 else "bpf"),
                           "order": order, "fcn": fcn, "sps": sps, "R": R, "npol": rng.choice([1, 2]),
-                          "phase": rng.uniform(0, 6.28), "amp": rng.choice([0.01, 1.0, 7.0]), "seed": rng.getrandbits(32),
+                          "phase": rng.uniform(0, 6.28), "amp": rng.choice([1e-13, 0.01, 1.0, 7.0, 1e9]), "seed": rng.getrandbits(32),
                           "fs_arg": rng.choice([None, 3.3e9, 7e10])})
             if k >= 1 and k % 2 == 1:
                 t = cases[-1]
@@ -180,10 +193,18 @@ def _data(case):
         if cplx:
             base = base + 1j * (r.normal(size=shape) + r.uniform(-2, 2))
         return base * scale
+    ns = case["scale"] * case.get("nscale", 0.1)
     s = arr(case["scale"])
-    nz = arr(case["scale"] * 0.1) if case.get("noise") else None
+    nz = arr(ns) if case.get("noise") else None
     s2 = arr(case["scale"])
-    nz2 = arr(case["scale"] * 0.1) if case.get("noise") else None
+    nz2 = arr(ns) if case.get("noise") else None
+    dark = case.get("dark")
+    if dark:                                   # the signal part (of the main input only) is identically zero there
+        s = s.copy()
+        if npol == 1 or dark == "all":
+            s[...] = 0
+        else:
+            s[0 if dark == "x" else 1] = 0
     return s, nz, s2, nz2
 
 
@@ -391,11 +412,14 @@ def _run_main(case, devn, fs, spy, res):
         res["params"], res["remarks"] = _params(spy)
     res.update(status="ok", cls=type(y).__name__, npol=getattr(y, "n_pol", 1), shape=list(y.signal.shape),
                out=_pack(_rows(y.signal)), out_noise=None if y.noise is None else _pack(_rows(y.noise)),
-               has_noise_in=nz is not None)
+               has_noise_in=nz is not None,
+               finite=bool(np.all(np.isfinite(y.signal)) and (y.noise is None or np.all(np.isfinite(y.noise)))))
     if case["kind"] == "short":
         return
-    scale = max(_maxabs(s), _maxabs(s2), 1e-300)
+    scale = max(_maxabs(s), _maxabs(s2))
     res["scale"] = scale
+    res["mag_s"] = _maxabs(s)
+    res["mag_n"] = None if nz is None else max(_maxabs(nz), _maxabs(nz2))
     cplx_scalars = devn == "bpf"
     a = complex(*case["a"]) if cplx_scalars else case["a"][0]
     b = complex(*case["b"]) if cplx_scalars else case["b"][0]
@@ -414,7 +438,9 @@ def _run_main(case, devn, fs, spy, res):
     # components are treated alike and independently
     if nz is not None and y.noise is not None:
         ysw = _call(devn, _mk(devn, nz, s, npol), case, bw)
-        res["swap"] = max(_maxabs(ysw.signal - y.noise), _maxabs(ysw.noise - y.signal)) if ysw.noise is not None else None
+        # each half relative to the magnitude of the component it concerns
+        res["swap_n"] = _maxabs(ysw.signal - y.noise)
+        res["swap_s"] = None if ysw.noise is None else _maxabs(ysw.noise - y.signal)
         yalone = _call(devn, _mk(devn, s, None, npol), case, bw)
         res["indep"] = _maxabs(yalone.signal - y.signal)
         res["alone_noise_none"] = yalone.noise is None
@@ -429,7 +455,13 @@ def _run_main(case, devn, fs, spy, res):
     cs = np.full((n,) if npol == 1 else (2, n), cval)
     yc = _call(devn, mk(cs, None if nz is None else 0.5 * cs), case, bw)
     res["const"] = _maxabs(yc.signal - cs) / abs(cval)
-    res["const_noise"] = None if nz is None or yc.noise is None else _maxabs(yc.noise - 0.5 * cs) / abs(cval)
+    res["const_noise"] = None if nz is None or yc.noise is None else _maxabs(yc.noise - 0.5 * cs) / abs(0.5 * cval)
+    # homogeneity over many decades: F(h x) = h F(x) (signal and noise)
+    h = case.get("hom")
+    if h:
+        yh = _call(devn, mk(h * sf, None if nz is None else h * nz), case, bw)
+        res["hom_sig"] = _maxabs(yh.signal - h * y.signal) / abs(h)
+        res["hom_noise"] = None if nz is None or yh.noise is None or y.noise is None else _maxabs(yh.noise - h * y.noise) / abs(h)
 
 
 def _run_tone(case, devn, fs, spy, res):
@@ -513,7 +545,8 @@ def _run_hist(case, spy, res):
             spy.on = False
         st["params"], st["remarks"] = _params(spy)
         st.update(status="ok", cls=type(y).__name__, shape=list(y.signal.shape), out=_pack(_rows(y.signal)),
-                  out_noise=None if y.noise is None else _pack(_rows(y.noise)), scale=max(_maxabs(s), 1e-300))
+                  out_noise=None if y.noise is None else _pack(_rows(y.noise)), scale=_maxabs(s),
+                  scale_n=None if nz is None else _maxabs(nz))
         # reference: the prototype designed NOW for the rate in force, applied by scipy itself (unspied originals)
         sos_ref = ob(N=order, Wn=wn, btype="low", fs=fs, output="sos", norm="mag")
         ref = of(sos_ref, s, axis=-1)
@@ -688,13 +721,18 @@ def _compare_reply(devn, st, reply, s, n):
     if not reply.startswith("ok "):
         return [f"implementation returned a result, model replied {reply[:60]}"]
     m_rows, m_noise = _read_sig(reply, devn == "bpf")
-    tol = 1e-12 * max(_maxabs(s), 1e-300) * n
-    out += _cmp("signal", m_rows, _unpack(st["out"]), tol)
+    # purely relative, per component: 1e-12 * n * (largest |model sample| of that component); an all-zero component must
+    # come back exactly zero.  No absolute floor (a flush-to-zero of "small" samples must show).
+    out += _cmp("signal", m_rows, _unpack(st["out"]), 1e-12 * n * _maxabs_rows(m_rows))
     if (m_noise is None) != (st["out_noise"] is None):
         out.append(f"noise: model {'none' if m_noise is None else 'present'}, implementation {'none' if st['out_noise'] is None else 'present'}")
     elif m_noise is not None:
-        out += _cmp("noise", m_noise, _unpack(st["out_noise"]), tol)
+        out += _cmp("noise", m_noise, _unpack(st["out_noise"]), 1e-12 * n * _maxabs_rows(m_noise))
     return out
+
+
+def _maxabs_rows(rows):
+    return max((_maxabs(np.array(r, dtype=complex)) for r in rows), default=0.0)
 
 
 def compare(case, res, reqs, replies):
@@ -767,17 +805,31 @@ def oracle(case, res):
             return v
         if res["has_noise_in"] != (res["out_noise"] is not None):
             v.append((f"C11:{devn}-noise-presence", "noise component appeared/disappeared"))
-        sc = res["scale"] * (1 + abs(complex(*case["a"])) + abs(complex(*case["b"])))
-        tol = 1e-9 * sc * n
+        if not res.get("finite", False):
+            v.append((f"C11:{devn}-nonfinite", "finite input, non-finite (NaN/inf) samples in the output"))
+        # every tolerance below is RELATIVE to the magnitude of the data it concerns (no absolute floor)
+        ab = 1 + abs(complex(*case["a"])) + abs(complex(*case["b"]))
+        tol = 1e-9 * res["scale"] * ab * n
         real_in = case.get("form") != "container-complex"      # LPF: the statement speaks of real inputs
         if real_in and not (res["lin_sig"] <= tol):
-            v.append((f"C11:{devn}-linear-signal", f"F(a x + b y) differs from a F(x) + b F(y) by {res['lin_sig']:.3e} on the signal (n={n})"))
-        if real_in and res.get("lin_noise") is not None and not (res["lin_noise"] <= tol):
-            v.append((f"C11:{devn}-linear-noise", f"F(a x + b y) differs from a F(x) + b F(y) by {res['lin_noise']:.3e} on the noise (n={n})"))
+            v.append((f"C11:{devn}-linear-signal", f"F(a x + b y) differs from a F(x) + b F(y) by {res['lin_sig']:.3e} on the signal (n={n}, data ~{res['scale']:.1e})"))
+        if real_in and res.get("lin_noise") is not None and not (res["lin_noise"] <= 1e-9 * res["mag_n"] * ab * n):
+            v.append((f"C11:{devn}-linear-noise", f"F(a x + b y) differs from a F(x) + b F(y) by {res['lin_noise']:.3e} on the noise (n={n}, noise ~{res['mag_n']:.1e})"))
+        if real_in and "hom_sig" in res:
+            if not (res["hom_sig"] <= 1e-9 * res["mag_s"] * n):
+                v.append((f"C11:{devn}-homogeneous-signal", f"F(h x) differs from h F(x) by {res['hom_sig']:.3e}*h on the signal (h={case['hom']:g}, data ~{res['mag_s']:.1e}, n={n})"))
+            if res.get("hom_noise") is not None and not (res["hom_noise"] <= 1e-9 * res["mag_n"] * n):
+                v.append((f"C11:{devn}-homogeneous-noise", f"F(h x) differs from h F(x) by {res['hom_noise']:.3e}*h on the noise (h={case['hom']:g}, noise ~{res['mag_n']:.1e}, n={n})"))
         if res["has_noise_in"] and res["out_noise"] is not None:
-            if res.get("swap") is None or not (res["swap"] <= 1e-12 * res["scale"]):
-                v.append((f"C11:{devn}-signal-noise-alike", f"exchanging signal and noise does not exchange the outputs (diff {res.get('swap')})"))
-            if not (res["indep"] <= 1e-12 * res["scale"]) or not res["alone_noise_none"]:
+            # F applied to the noise array as `.noise` must equal F applied to the same array as `.signal`, and vice versa
+            if not (res["swap_n"] <= 1e-12 * res["mag_n"]):
+                v.append((f"C11:{devn}-signal-noise-alike", f"an array is filtered differently as noise component than as signal component "
+                                                             f"(diff {res['swap_n']:.3e}, array ~{res['mag_n']:.1e}"
+                                                             + (f", signal part dark on {case['dark']}" if case.get("dark") else "") + ")"))
+            if res.get("swap_s") is None or not (res["swap_s"] <= 1e-12 * res["mag_s"]):
+                v.append((f"C11:{devn}-signal-noise-alike", f"an array is filtered differently as signal component than as noise component "
+                                                             f"(diff {res.get('swap_s')}, array ~{res['mag_s']:.1e})"))
+            if not (res["indep"] <= 1e-12 * res["mag_s"]) or not res["alone_noise_none"]:
                 v.append((f"C11:{devn}-signal-noise-independent", f"the filtered signal depends on the noise (diff {res['indep']:.3e})"))
         if npol == 2:
             if not (res["polswap"] <= 1e-12 * res["scale"]):
@@ -798,6 +850,9 @@ def oracle(case, res):
         for r in range(rows):
             gs = [g for i, g in enumerate(res["gains"]) if i % rows == r]
             for g in gs:
+                if not all(math.isfinite(g[k]) for k in ("g", "ph", "resid", "pratio")):
+                    v.append((f"C11:{devn}-nonfinite", f"tone at {g['fn']:.4f} fs: non-finite output ({g})"))
+                    continue
                 clean = _clean(g)
                 if abs(abs(g["fn"]) - fc) < 1e-15 and clean:
                     att = -20 * math.log10(max(g["g"], 1e-300))
@@ -807,17 +862,19 @@ def oracle(case, res):
                                                            f"(order {case['order']}, cut-off {fc:.4f} fs)"))
                 if clean and g["g"] > 1e-3 and not abs(g["ph"]) <= 1e-5:
                     v.append((f"C11:{devn}-zero-phase", f"tone at {g['fn']:.4f} fs comes out with phase {g['ph']:.3e} rad (delay)"))
-                if not g["g"] <= 1 + 1e-6 or (clean and not g["pratio"] <= 1 + 1e-6):
+                if not (g["g"] <= 1 + 1e-6) or (clean and not (g["pratio"] <= 1 + 1e-6)):
                     v.append((f"C11:{devn}-tone-power", f"tone at {g['fn']:.4f} fs gains power: amplitude x{g['g']:.9f}"))
             seq = sorted(gs, key=lambda g: abs(g["fn"]))
             for g1, g2 in zip(seq, seq[1:]):
-                if abs(g2["fn"]) > abs(g1["fn"]) and not g2["g"] <= g1["g"] + 1e-6:
+                if not (math.isfinite(g1["g"]) and math.isfinite(g2["g"])):
+                    continue                                 # reported above
+                if abs(g2["fn"]) > abs(g1["fn"]) and not (g2["g"] <= g1["g"] + 1e-6):
                     v.append((f"C11:{devn}-monotone", f"attenuation not monotone: gain {g1['g']:.6e} at {g1['fn']:.4f} fs, "
                                                      f"{g2['g']:.6e} at {g2['fn']:.4f} fs"))
                     break
         return v
     if kind == "pulse":
-        if not res["mirror"] <= 1e-9:
+        if not (res["mirror"] <= 1e-9):
             v.append((f"C11:{devn}-pulse-symmetry", f"response to a symmetric pulse centred at {res['m']} is not symmetric about it "
                                                    f"(mirror error {res['mirror']:.3e} of the peak)"))
         if res["argmax"] != res["m"]:
@@ -826,14 +883,17 @@ def oracle(case, res):
     if kind == "reth":
         if res["reth_form"] != "pair" or res["Hlen"] != res["n"] or res["out_len"] != res["n"]:
             return [("C11:retH-grid", f"retH is not (output, H) with H on the signal's {res['n']}-point grid: {res.get('Hlen')}")]
-        if abs(complex(*res["H0"]) - 1) > 1e-9:
+        if not (abs(complex(*res["H0"]) - 1) <= 1e-9):
             v.append(("C11:retH-dc", f"returned response is {complex(*res['H0'])} at DC (centre of the fftshift-ed grid), 1 required"))
-        if abs(res["Hcut"] - math.sqrt(0.5)) > 1e-6:
+        if not (abs(res["Hcut"] - math.sqrt(0.5)) <= 1e-6):
             v.append(("C11:retH-cutoff", f"|H| at the cut-off bin is {res['Hcut']:.6f}; the single-pass prototype has 1/sqrt2"))
-        if res["herm"] > 1e-9:
+        if not (res["herm"] <= 1e-9):
             v.append(("C11:retH-symmetry", f"returned response is not Hermitian about the centre bin ({res['herm']:.3e})"))
         for m in res["meas"]:
-            if m["resid"] <= 1e-6 * max(m["g2pass"], 1e-3) and abs(m["H2"] - m["g2pass"]) > 1e-7 * max(1e-2, m["g2pass"]):
+            if not all(math.isfinite(m[k]) for k in ("resid", "g2pass", "H2")):
+                v.append(("C11:retH-nonfinite", f"non-finite response / measured gain at bin {m['kb']}: {m}"))
+                break
+            if m["resid"] <= 1e-6 * max(m["g2pass"], 1e-3) and not (abs(m["H2"] - m["g2pass"]) <= 1e-7 * max(1e-2, m["g2pass"])):
                 v.append(("C11:retH-single-pass", f"|H|^2 = {m['H2']:.6e} at bin {m['kb']} but the filter's measured (two-pass) gain is "
                                                   f"{m['g2pass']:.6e}"))
                 break
@@ -853,13 +913,15 @@ def _oracle_hist(case, res):
             v.append((f"C11:{hdev}-history-raises", f"{where}: {st.get('detail')}"))
             continue
         tol = 1e-9 * st["scale"] * n
-        if st.get("ref_err") is None or not st["ref_err"] <= tol:
+        if st.get("ref_err") is None or not (st["ref_err"] <= tol):
             v.append((f"C11:{hdev}-history-stale-design", f"{where}: output differs from the Bessel(norm='mag') prototype designed for "
                                                          f"this rate, applied forward-backward, by {st.get('ref_err')}"))
-        if "ref_err_noise" in st and (st["ref_err_noise"] is None or not st["ref_err_noise"] <= tol):
+        if "ref_err_noise" in st and (st["ref_err_noise"] is None or not (st["ref_err_noise"] <= 1e-9 * st["scale_n"] * n)):
             v.append((f"C11:{hdev}-history-stale-design-noise", f"{where}: noise output differs from the reference by {st['ref_err_noise']}"))
         g = st["tone"]
-        if _clean(g):
+        if not all(math.isfinite(g[k]) for k in ("g", "ph", "resid")):
+            v.append((f"C11:{hdev}-history-nonfinite", f"{where}: non-finite tone response {g}"))
+        elif _clean(g):
             att = -20 * math.log10(max(g["g"], 1e-300))
             if not abs(att - ATT_DB) <= 0.05:
                 v.append((f"C11:{hdev}-history-cutoff-6dB", f"{where}: tone at the cut-off attenuated by {att:.4f} dB, 6.0 dB required"))
@@ -877,6 +939,12 @@ def features(case, res):
             f.append("fs=explicit" if case.get("fs_arg") else "fs=gv")
     elif kind != "reth":
         f.append("dev=" + case["dev"])
+    if case.get("dark"):
+        f.append(f"dark-signal={case['dark']}/npol={case['npol']}")
+    if kind in ("lpf", "bpf"):
+        f += [f"noise-level={case.get('nscale')}" if case["noise"] else "noise-level=none", f"hom={case.get('hom'):g}"]
+    if kind == "tone":
+        f.append(f"amp={case['amp']:g}")
     if kind == "reth":
         f.append("retH-N-odd" if case["nr"] % 2 else "retH-N-even")
     if "wn" in case:
